@@ -35,7 +35,7 @@ EXTENDS Integers, Sequences, FiniteSets, TLC
 
 CONSTANTS Deviations,     \* named departures of the code from the design that are switched on
           Fns,            \* the functions the generator may call (a subset of DOMAIN FT)
-          Pools,          \* "tiny" / "small": a few tokens per argument (exhaustive runs); "full": all of them; "doc": documented uses only; "refs": documented uses plus spare names
+          Pools,          \* "min" / "tiny" / "small": a few tokens per argument (exhaustive runs); "full": all of them; "doc": documented uses only; "refs": documented uses plus spare names
           MaxCalls, MinCalls, MaxDepth, MaxMisplaced,
           MaxTop,         \* at most this many top-level calls (the rest of the budget goes into nesting)
           MinKids         \* a func() does not return before it made this many calls (while the budget lasts)
@@ -557,7 +557,9 @@ SpareTok == {"zz", "zz:X-Z", "nov", "/{zz}", "/{*w}", "two", "T2", "R2", "e2", "
 TinyTok == {"-", "a", "zz", "s1", "m1", "e1", "sc1", "nosuch", "T1", "R1", "api1", "plain", "fn", "200", "404", "tiny", "nov", "/x/{a}", "/{zz}",
             "txt", "url", "i", "s", "v", "k", "1", "date", "det", "struct", "Renamed", "u", "srv1", "h1", "v1", "pkg", "file.txt", "/f", "/r", "301",
             "application/json", "http://localhost:8080", "api:read", "3600", "strict", "^a+$", "email"}
+MinTok == {"-", "a", "zz", "s1", "m1", "e1", "sc1", "R1", "plain", "fn", "200", "404", "/x", "tiny", "nov", "api1"}
 Pool(S) == IF Pools = "full" THEN S
+           ELSE IF Pools = "min" THEN (LET I == S \cap MinTok IN IF I = {} THEN {CHOOSE x \in S : TRUE} ELSE I)
            ELSE IF Pools = "tiny" THEN (LET I == S \cap TinyTok IN IF I = {} THEN {CHOOSE x \in S : TRUE} ELSE I)
            ELSE IF Pools = "doc" THEN (IF S \ (OddTok \cup SpareTok) = {} THEN S ELSE S \ (OddTok \cup SpareTok))
            ELSE IF Pools = "refs" THEN (IF S \ OddTok = {} THEN S ELSE S \ OddTok)
